@@ -177,6 +177,27 @@ class Sim:
         os.utime(dst, ns=(st.st_mtime_ns, st.st_mtime_ns))
         self.log('copy %s/%r -> %s/%r' % (d, rel, d2, rel))
 
+    def fs_copy_over(self):
+        """replace an existing file by a copy (new inode, same name, size and time-stamp as the source) of
+        the same-named file of another disk: copy detection then gives it provisional (REP) hashes"""
+        files = self.existing_files()
+        if not files:
+            return
+        pf = self.pick_file()
+        d, rel = pf
+        a = self.arr
+        others = [x for x in a.disks if x != d and os.path.isfile(a.path(x, rel)) and not os.path.islink(a.path(x, rel))]
+        if not others:
+            return self.fs_copy()
+        d2 = self.rng.choice(others)
+        src, dst = a.path(d, rel), a.path(d2, rel)
+        st = os.stat(src)
+        tmp = dst + '.cptmp'
+        shutil.copyfile(src, tmp)
+        os.utime(tmp, ns=(st.st_mtime_ns, st.st_mtime_ns))
+        os.rename(tmp, dst)
+        self.log('copy-over %s/%r -> %s/%r' % (d, rel, d2, rel))
+
     def fs_link(self):
         a, r = self.arr, self.rng
         d = r.choice(a.disks)
@@ -205,10 +226,10 @@ class Sim:
             os.makedirs(p); self.log('mkdir %s' % p)
 
     def fs_random(self, n=1, weights=None):
-        ops = [(self.fs_create, 6), (self.fs_modify, 4), (self.fs_delete, 3), (self.fs_move, 2), (self.fs_copy, 2), (self.fs_touch, 2)]
+        ops = [(self.fs_create, 6), (self.fs_modify, 4), (self.fs_delete, 3), (self.fs_move, 2), (self.fs_copy, 2), (self.fs_copy_over, 1), (self.fs_touch, 2)]
         if getattr(self, 'churn', False):
             # pending-churn mode: mostly re-touch what is pending, and create copies (provisional hashes)
-            ops = [(self.fs_create, 2), (self.fs_modify, 3), (self.fs_delete, 2), (self.fs_move, 2), (self.fs_copy, 5), (self.fs_touch, 5)]
+            ops = [(self.fs_create, 2), (self.fs_modify, 3), (self.fs_delete, 2), (self.fs_move, 2), (self.fs_copy, 4), (self.fs_copy_over, 4), (self.fs_touch, 5)]
         if self.rng.chance(1, 12):
             ops = ops + [(self.fs_wipe_disk, 2)]
         if self.links and not getattr(self, 'churn', False):
@@ -251,7 +272,26 @@ class Sim:
         res = self.arr.cmd(op, *args, **kw)
         self.remember()
         self.log('snapraid %s %s -> rc=%d' % (op, ' '.join(args), res.rc))
+        if getattr(self, 'track_lengths', False):
+            self.update_synced_lengths()
         return res
+
+    def update_synced_lengths(self):
+        """(generator column, position) -> length of the block last recorded as synced there"""
+        a = self.arr
+        if not os.path.exists(a.contents[0]):
+            return
+        dec = e2e.lean_decode([a.content_bytes(0)], a.block)[0][0]
+        if not dec.ok:
+            return
+        if not hasattr(self, 'synced_len'):
+            self.synced_len = {}
+        bs = dec.block_size
+        for f in dec.files:
+            col = dec.maps[f['mapping']][1]
+            for idx, (pos, kind, h) in enumerate(f['blocks']):
+                if kind == 'b':
+                    self.synced_len[(col, pos)] = min(bs, f['size'] - idx * bs)
 
     def populate(self, per_disk=4):
         for d in self.arr.disks:
